@@ -556,6 +556,37 @@ Theorem C04_expect_without_disarm_refuted :
 Proof. exact expect_without_disarm_refuted. Qed.
 Print Assumptions C04_expect_without_disarm_refuted.
 
+(* Bytes arriving on an IDLE connection (Model/H1Conn.v client_run; carried state = the
+   client's connection: none, or idle with a read buffer): whatever the server sends on a
+   connection while it is idle, and whenever, no request is ever answered with it - every
+   request of any sequence of requests and idle-time bytes gets exactly the answer a fresh
+   connection would give it from its own segment.  Without the idle guard (seeded f-m1) the
+   bytes sent on the idle connection answer the next request. *)
+Theorem C04_idle_bytes_never_answer_a_request : forall evs,
+  client_run true None evs = answers_alone evs.
+Proof. exact idle_bytes_never_answer_a_request. Qed.
+Print Assumptions C04_idle_bytes_never_answer_a_request.
+
+Theorem C04_idle_guard_off_refuted :
+  map (option_map (fun rb => b_data (snd rb))) (client_run false None idle_demo) = [Some []; Some (bs "STOLEN")] /\
+  map (option_map (fun rb => b_data (snd rb))) (client_run true None idle_demo) = [Some []; Some (bs "fresh")].
+Proof. exact idle_guard_off_refuted. Qed.
+Print Assumptions C04_idle_guard_off_refuted.
+
+(* Reading on after the end of a body: the client's body reports its first terminal result on
+   every later Read; without the sticky layer (seeded f-m3) a length-delimited body cut short
+   reports the truncation once and a clean end afterwards (every other framing repeats itself) *)
+Theorem C04_client_reads_sticky : forall fr first k,
+  client_reads_again true fr first k = repeat first k.
+Proof. exact client_reads_sticky. Qed.
+Print Assumptions C04_client_reads_sticky.
+
+Theorem C04_reads_without_sticky_refuted :
+  client_reads_again false (FrLength 5) BUnexpectedEOF 2 = [BOk; BOk] /\
+  forall fr e k, (forall n, fr <> FrLength n) -> client_reads_again false fr e k = repeat e k.
+Proof. exact reads_without_sticky_refuted. Qed.
+Print Assumptions C04_reads_without_sticky_refuted.
+
 (* x read buffer sizes: an accepted status line + header block + transfer decision does not
    depend on the read-buffer size *)
 Theorem C04_accepted_head_bufsize_independent : forall meth b1 b2 s r rest,
